@@ -28,6 +28,8 @@ import (
 	"github.com/yorkie-team/yorkie/server/logging"
 	"github.com/yorkie-team/yorkie/server/profiling/prometheus"
 	"github.com/yorkie-team/yorkie/server/rpc"
+
+	"verifmc/dbwrap"
 )
 
 // Addr is the pseudo address every in-process client dials.
@@ -133,6 +135,7 @@ type World struct {
 	Transport *Transport
 	HTTP      *http.Client
 	MemDB     *memdb.DB
+	DBW       *dbwrap.DB
 	Owner     types.ID
 	Default   *types.Project
 	seq       atomic.Int64
@@ -202,6 +205,10 @@ func New(opts Options) (*World, error) {
 	w.Transport.SetHandler(srv.HandlerForVerif())
 	w.HTTP = &http.Client{Transport: w.Transport}
 	w.MemDB = be.DB.(*memdb.DB)
+	// The storage seam: Backend.DB is an exported interface field; the
+	// decorator is transparent while its hooks are nil.
+	w.DBW = dbwrap.Wrap(be.DB)
+	be.DB = w.DBW
 
 	cc, err := be.ClusterClient()
 	if err != nil {
